@@ -210,6 +210,11 @@ func (m *Model) applyStore(row MRow, st Store) {
 			cur = cell.V.B
 		}
 		cell.Has, cell.V = true, Value{B: mergeNumeric(cs.Kind, cs.Merge, cur, st.Val.B)}
+		if cs.Kind.Float() && isNaNBits(cs.Kind, cell.V.B) {
+			// The payload of a NaN produced by arithmetic (NaN+x, Inf-Inf) depends on the
+			// operand order the compiler picks: any NaN is a correct result.
+			cell.V.S = nanAny
+		}
 	default:
 		cur := ""
 		if cell.Has {
@@ -384,7 +389,7 @@ func (m *Model) diffRow(off uint32, want, got MRow, what string) string {
 			continue
 		}
 		w, g := want[i], got[i]
-		if w.Has != g.Has || (w.Has && w.V != g.V) {
+		if !cellEqual(m.Sch.Cols[i].Kind, w, g) {
 			return fmt.Sprintf("%s: row %d column %s: got %s, want %s", what, off, m.Sch.Cols[i].Name, renderCell(m.Sch.Cols[i].Kind, g), renderCell(m.Sch.Cols[i].Kind, w))
 		}
 	}
@@ -426,4 +431,27 @@ func (m *Model) diffStates(got map[uint32]MRow, what string) string {
 		}
 	}
 	return ""
+}
+
+const nanAny = "nan-any"
+
+func isNaNBits(k Kind, bits uint64) bool {
+	if k == KFloat32 {
+		return bits&0x7f800000 == 0x7f800000 && bits&0x007fffff != 0
+	}
+	return bits&0x7ff0000000000000 == 0x7ff0000000000000 && bits&0x000fffffffffffff != 0
+}
+
+// cellEqual compares an expected (model) cell with an observed one.
+func cellEqual(k Kind, want, got Cell) bool {
+	if want.Has != got.Has {
+		return false
+	}
+	if !want.Has {
+		return true
+	}
+	if k.Float() && want.V.S == nanAny {
+		return isNaNBits(k, got.V.B)
+	}
+	return want.V == got.V
 }
